@@ -190,6 +190,44 @@ def mk_sketchy(rank, dim, full_k):
   return t
 
 
+def mk_fd_factor(rank, axis):
+  """distributed_shampoo.frequent_directions_update: the returned factor is R' padded with zero columns where R is the
+  R-factor (qr contract: R'R = X'X) of the TRANSPOSED mode-`axis` unfolding X' of the gradient block - whatever the shape
+  (tall, wide) and the rank of the block."""
+
+  def t(ctx, it):
+    m = it.load_module(DS)
+    dims = tuple(spec.fresh_int(f"d{a}", lo=1) for a in range(rank))
+    g = T.opaque("g", dims)
+    R = m.frequent_directions_update(None, g, axis, 0.0, 0.0)
+    d = dims[axis]
+    ctx.oblige("frequent_directions_update.post.shape = (d, d)", sym.sand(R.shape[0] == d, R.shape[1] == d))
+    src = ctx.ghost.get("last_qr_input")
+    ctx.require("frequent_directions_update.post.the factor comes from a QR decomposition", src is not None)
+    import itertools as _it
+    others = [a for a in range(rank) if a != axis]
+    row = sk(ctx, "row", d)
+    if others:
+      o = {a: sk(ctx, f"o{a}", dims[a]) for a in others}
+      full_idx = tuple(row if a == axis else o[a] for a in range(rank))
+      ok, first = False, None
+      for perm in _it.permutations(others):
+        pos = 0
+        for a in perm:
+          pos = pos * dims[a] + o[a]
+        claim = src.at((pos, row)) == g.at(full_idx)
+        first = claim if first is None else first
+        if sym.prove(claim):
+          ok = True
+          break
+      ctx.oblige("frequent_directions_update.post.the decomposed matrix is the transposed mode-axis unfolding of the gradient block",
+                 True if ok else first, detail=f"rank={rank} axis={axis}")
+    else:
+      ctx.oblige("frequent_directions_update.post.the decomposed matrix is the gradient vector as one row", src.at((0, row)) == g.at((row,)))
+
+  return t
+
+
 def t_sketchy_update(ctx, it):
   """Tearfree Sketchy, the whole _update on a statistics step: EVERY axis sketch goes through _update_axis whatever the
   gradient is (in particular a zero gradient still discounts l and t by the decay): t' = b*t + s[k]^2 for every axis."""
@@ -223,6 +261,8 @@ def t_sketchy_update(ctx, it):
 
 def tasks(tier):
   ts = [Task("DS _fd_update_root", t_ds), Task("sketchy._update on a statistics step", t_sketchy_update)]
+  for rank_, axis_ in ((1, 0), (2, 0), (2, 1), (3, 1)):
+    ts.append(Task(f"DS frequent_directions_update[rank={rank_},axis={axis_}]", mk_fd_factor(rank_, axis_)))
   for rank in (1, 2, 3):
     for dim in range(rank):
       for full_k in (False, True):
